@@ -114,7 +114,20 @@ def replay_chunk(args):
     from . import nodes as N
 
     lines, families, lockstep = args
-    out = {"n": 0, "same": 0, "known": {}, "attention": [], "per_family": {}, "recursion": 0, "lockstep_diff": []}
+    out = {"n": 0, "same": 0, "known": {}, "attention": [], "per_family": {}, "recursion": 0, "lockstep_diff": [],
+           "dropped": 0}
+    strata = {}
+
+    def attention(item):
+        # keep memory bounded when (with a mutant) most vectors differ: a few per (family, call, plan, outcome) class and chunk
+        p = item["pred"]
+        key = (item["family"], item["why"], p["k"], p["plan"]["mode"], p["exc"], item["obs"].get("exc"))
+        strata[key] = strata.get(key, 0) + 1
+        if strata[key] <= 4:
+            out["attention"].append(item)
+        else:
+            out["dropped"] += 1
+
     for line in lines:
         vec = json.loads(json.loads(line))
         pred = expand(vec["o"])
@@ -129,7 +142,7 @@ def replay_chunk(args):
             obs = perform(pred, fam)
             observed[fam] = obs
             if obs.get("build_failed"):
-                out["attention"].append({"family": fam, "pred": pred, "obs": obs, "flags": flags, "why": "build"})
+                attention({"family": fam, "pred": pred, "obs": obs, "flags": flags, "why": "build"})
                 continue
             if same(pred, obs):
                 out["same"] += 1
@@ -144,11 +157,11 @@ def replay_chunk(args):
                     if kf["witness"] is None:
                         kf["witness"] = {"family": fam, "pred": strip_snap(pred)}
             else:
-                out["attention"].append({"family": fam, "pred": pred, "obs": obs, "flags": flags, "why": "differs"})
+                attention({"family": fam, "pred": pred, "obs": obs, "flags": flags, "why": "differs"})
         if lockstep and len(lockstep) == 2 and all(f in observed for f in lockstep):
             a, b = observed[lockstep[0]], observed[lockstep[1]]
             if not a.get("build_failed") and not b.get("build_failed") and a["exc"] != "RecursionError":
-                if any(a[f] != b[f] for f in OBS_FIELDS):
+                if any(a[f] != b[f] for f in OBS_FIELDS) and len(out["lockstep_diff"]) < 5:
                     out["lockstep_diff"].append({"pred": pred, lockstep[0]: a, lockstep[1]: b})
     return out
 
